@@ -332,3 +332,254 @@ package mpb
 //@              ==> s.current == current && s.triggerComplete == old(s.triggerComplete)
 //@   ensures  S1@C11: old(s.completed()) && current >= old(s.current) ==> s.completed()
 //@   ensures  S2@C11: old(s.aborted) ==> s.aborted && !s.completed()
+
+// ---------------------------------------------------------------------------------------
+// fillers (C07 width and termination, C08 filled/refill segments, C02 safety)
+//
+// written(w): ghost contents of the writer; emitted width = growth of dw(written(w)).
+// Assumption M: user meta functions preserve display width (they add zero-width escapes).
+
+//@ spec allot(r, a) = ite(r < 1 || r > a, a, r)
+
+//@ typeinv bFiller props C07 C02 len(self.tip.frames) >= 1 && self.flush != nil
+//@ typeinv bFiller props C07 C02 forall(i, 0, components, self.components[i].width == dw(self.components[i].bytes) && self.meta[i] != nil)
+//@ typeinv bFiller props C07 C02 forall(j, 0, len(self.tip.frames), self.tip.frames[j].width == dw(self.tip.frames[j].bytes))
+
+//@ functype bFiller.meta
+//@   params   w p
+//@   modifies written(w)
+//@   ensures  dw(written(w)) - old(dw(written(w))) <= dw(p) && dw(written(w)) >= old(dw(written(w)))
+//@   ensures  result == nil ==> dw(written(w)) == old(dw(written(w))) + dw(p)
+
+//@ functype flushSection.meta
+//@   params   w p
+//@   modifies written(w)
+//@   ensures  dw(written(w)) - old(dw(written(w))) <= dw(p) && dw(written(w)) >= old(dw(written(w)))
+//@   ensures  result == nil ==> dw(written(w)) == old(dw(written(w))) + dw(p)
+
+//@ functype bFiller.flush
+//@   params   w sections
+//@   requires forall(i, 0, len(sections), sections[i].meta != nil)
+//@   modifies written(w)
+//@   ensures  dw(written(w)) >= old(dw(written(w)))
+//@   ensures  dw(written(w)) - old(dw(written(w))) <= sumdw(sections, len(sections), "bytes")
+//@   ensures  result == nil ==> dw(written(w)) == old(dw(written(w))) + sumdw(sections, len(sections), "bytes")
+
+//@ func defaultMeta
+//@   props    C07
+//@   requires w != nil
+//@   modifies written(w)
+//@   ensures  dw(written(w)) - old(dw(written(w))) <= dw(p) && dw(written(w)) >= old(dw(written(w)))
+//@   ensures  err == nil ==> dw(written(w)) == old(dw(written(w))) + dw(p)
+
+//@ functype makeMetaFunc$1.fn
+//@   params   s
+//@   modifies nothing
+//@   ensures  dw(result) == dw(s)
+
+//@ func makeMetaFunc
+//@   props    C07 C02
+//@   requires fn != nil
+//@   ensures  result != nil
+
+//@ func makeMetaFunc$1
+//@   props    C07
+//@   requires w != nil && fn != nil
+//@   modifies written(w)
+//@   ensures  dw(written(w)) - old(dw(written(w))) <= dw(p) && dw(written(w)) >= old(dw(written(w)))
+//@   ensures  err == nil ==> dw(written(w)) == old(dw(written(w))) + dw(p)
+
+//@ func (*bFiller).Fill
+//@   props    C07 C02
+//@   wraps    uint
+//@   requires s != nil && w != nil
+//@   requires 0 <= stat.AvailableWidth && stat.AvailableWidth <= 1<<31 && stat.RequestedWidth <= 1<<31
+//@   modifies written(w), s.tip
+//@   loop 1   invariant fillCount == tip.width + dw(filling) + dw(refilling) + dw(padding) && dw(padding) == 0 && dw(refilling) == 0
+//@   loop 1   invariant curWidth <= width && refWidth <= width && fillCount <= max(width, tip.width) && fillCount >= 0
+//@   loop 1   invariant dw(written(in(w))) == old(dw(written(in(w)))) + s.components[iLbound].width
+//@   loop 1   decreases curWidth - fillCount
+//@   loop 2   invariant fillCount == tip.width + dw(filling) + dw(refilling) + dw(padding) && dw(padding) == 0
+//@   loop 2   invariant curWidth <= width && refWidth <= width && fillCount <= max(width, tip.width) && fillCount >= 0
+//@   loop 2   invariant refilled@C08: dw(refilling) <= max(refWidth, 0)
+//@   loop 2   invariant dw(written(in(w))) == old(dw(written(in(w)))) + s.components[iLbound].width
+//@   loop 2   decreases refWidth - fillCount
+//@   loop 3   invariant fillCount == tip.width + dw(filling) + dw(refilling) + dw(padding)
+//@   loop 3   invariant fillCount <= max(width, tip.width) && fillCount >= 0
+//@   loop 3   invariant dw(written(in(w))) == old(dw(written(in(w)))) + s.components[iLbound].width
+//@   loop 3   decreases width - fillCount
+//@   loop 4   invariant fillCount == tip.width + dw(filling) + dw(refilling) + dw(padding)
+//@   loop 4   invariant fillCount <= max(width, tip.width) && fillCount >= 0
+//@   loop 4   invariant dw(written(in(w))) == old(dw(written(in(w)))) + s.components[iLbound].width
+//@   loop 4   decreases width - fillCount
+//@   ensures  neg: allot(stat.RequestedWidth, stat.AvailableWidth) < s.components[iLbound].width + s.components[iRbound].width
+//@              ==> result == nil && dw(written(w)) == old(dw(written(w)))
+//@   ensures  zero: allot(stat.RequestedWidth, stat.AvailableWidth) == s.components[iLbound].width + s.components[iRbound].width && result == nil
+//@              ==> dw(written(w)) == old(dw(written(w))) + allot(stat.RequestedWidth, stat.AvailableWidth)
+//@   ensures  exact: allot(stat.RequestedWidth, stat.AvailableWidth) > s.components[iLbound].width + s.components[iRbound].width && result == nil
+//@              ==> dw(written(w)) == old(dw(written(w))) + allot(stat.RequestedWidth, stat.AvailableWidth)
+//@   ensures  fits: dw(written(w)) - old(dw(written(w))) <= max(0, stat.AvailableWidth)
+
+//@ iface BarFiller.Fill
+//@   params   w stat
+//@   requires 0 <= stat.AvailableWidth
+//@   modifies written(w), bFiller.tip, sFiller.count
+//@   ensures  fits: dw(written(w)) - old(dw(written(w))) <= max(0, stat.AvailableWidth) && dw(written(w)) >= old(dw(written(w)))
+
+//@ func (BarFillerFunc).Fill
+//@   props    C07
+//@   trusted
+
+// flush closures of barStyle.Build: every non-empty section goes through its meta function
+// exactly once (in reverse order when the bar is reversed)
+
+//@ func (barStyle).Build$1
+//@   props    C07 C02
+//@   requires w != nil && forall(i, 0, len(sections), sections[i].meta != nil)
+//@   modifies written(w)
+//@   loop 1   modifies written(w)
+//@   loop 1   invariant 0 <= i + 1 && i < len(sections)
+//@   loop 1   invariant dw(written(w)) == old(dw(written(w))) + sumdw(sections, len(sections), "bytes") - sumdw(sections, i + 1, "bytes")
+//@   loop 1   invariant dw(written(w)) >= old(dw(written(w))) && sumdw(sections, i + 1, "bytes") <= sumdw(sections, len(sections), "bytes")
+//@   loop 1   decreases i + 1
+//@   ensures  dw(written(w)) >= old(dw(written(w)))
+//@   ensures  dw(written(w)) - old(dw(written(w))) <= sumdw(sections, len(sections), "bytes")
+//@   ensures  result == nil ==> dw(written(w)) == old(dw(written(w))) + sumdw(sections, len(sections), "bytes")
+
+//@ func (barStyle).Build$2
+//@   props    C07 C02
+//@   requires w != nil && forall(i, 0, len(sections), sections[i].meta != nil)
+//@   modifies written(w)
+//@   loop 1   modifies written(w)
+//@   loop 1   invariant dw(written(w)) == old(dw(written(w))) + sumdw(sections, rangeindex + 1, "bytes")
+//@   ensures  dw(written(w)) >= old(dw(written(w)))
+//@   ensures  dw(written(w)) - old(dw(written(w))) <= sumdw(sections, len(sections), "bytes")
+//@   ensures  result == nil ==> dw(written(w)) == old(dw(written(w))) + sumdw(sections, len(sections), "bytes")
+
+//@ typeinv barStyle props C07 C02 forall(i, 0, components, self.metaFuncs[i] != nil) && len(self.tipFrames) >= 1
+
+//@ func (barStyle).LboundMeta
+//@   props    C07 C02
+//@   requires fn != nil
+//@ func (barStyle).RboundMeta
+//@   props    C07 C02
+//@   requires fn != nil
+//@ func (barStyle).FillerMeta
+//@   props    C07 C02
+//@   requires fn != nil
+//@ func (barStyle).RefillerMeta
+//@   props    C07 C02
+//@   requires fn != nil
+//@ func (barStyle).PaddingMeta
+//@   props    C07 C02
+//@   requires fn != nil
+//@ func (barStyle).TipMeta
+//@   props    C07 C02
+//@   requires fn != nil
+
+//@ func (barStyle).Build
+//@   props    C07 C02
+//@   loop 1   invariant bf != nil && len(bf.tip.frames) == len(s.tipFrames) && s.tipFrames == old(s.tipFrames)
+//@   loop 1   invariant forall(j, 0, rangeindex + 1, bf.tip.frames[j].width == dw(bf.tip.frames[j].bytes))
+//@   loop 1   invariant forall(i, 0, components, bf.components[i].width == dw(bf.components[i].bytes) && bf.meta[i] != nil)
+//@   ensures  result != nil
+
+//@ func BarStyle
+//@   props    C07 C02
+//@   loop 1   invariant len(bs.tipFrames) == 1 && forall(k, 0, rangeindex + 1, bs.metaFuncs[k] != nil)
+//@   ensures  result != nil
+
+// spinner
+
+//@ typeinv sFiller props C07 C02 len(self.frames) >= 1 && self.meta != nil && self.position != nil
+//@ typeinv spinnerStyle props C07 C02 len(self.frames) >= 1 && self.meta != nil
+
+//@ functype sFiller.meta
+//@   params   s
+//@   modifies nothing
+//@   ensures  dw(result) == dw(s)
+
+//@ functype sFiller.position
+//@   params   frame padWidth
+//@   requires padWidth >= 0
+//@   modifies nothing
+//@   ensures  dw(result) == dw(frame) + padWidth
+
+//@ func (spinnerStyle).Build$1
+//@   props    C07 C02
+//@   requires padWidth >= 0
+//@   modifies nothing
+//@   ensures  dw(result) == dw(frame) + padWidth
+
+//@ func (spinnerStyle).Build$2
+//@   props    C07 C02
+//@   requires padWidth >= 0
+//@   modifies nothing
+//@   ensures  dw(result) == dw(frame) + padWidth
+
+//@ func (spinnerStyle).Build$3
+//@   props    C07 C02
+//@   requires padWidth >= 0
+//@   modifies nothing
+//@   ensures  dw(result) == dw(frame) + padWidth
+
+//@ func (spinnerStyle).Build
+//@   props    C07 C02
+//@   ensures  result != nil
+
+//@ func SpinnerStyle
+//@   props    C07 C02
+//@   ensures  result != nil
+
+//@ func SpinnerStyle$1
+//@   props    C07
+//@   modifies nothing
+//@   ensures  result == s
+
+//@ func (spinnerStyle).Meta
+//@   props    C07 C02
+//@   requires fn != nil
+//@   ensures  result != nil
+
+//@ func (*sFiller).Fill
+//@   props    C07 C02
+//@   wraps    uint
+//@   requires s != nil && w != nil
+//@   requires 0 <= stat.AvailableWidth && stat.AvailableWidth <= 1<<31 && stat.RequestedWidth <= 1<<31
+//@   modifies written(w), s.count
+//@   ensures  fits: dw(written(w)) - old(dw(written(w))) <= max(0, stat.AvailableWidth) && dw(written(w)) >= old(dw(written(w)))
+//@   ensures  exact: result == nil ==> dw(written(w)) == old(dw(written(w))) || dw(written(w)) == old(dw(written(w))) + allot(stat.RequestedWidth, stat.AvailableWidth)
+
+// one row: decorators, two spaces, the filler body, a line feed
+
+//@ func (*bState).draw$1
+//@   props    C07 C12
+//@   requires buf != nil && stat.AvailableWidth >= 0
+//@   requires forall(i, 0, len(group), group[i] != nil)
+//@   modifies written(buf), pkgstate("decor"), sent(), recvd()
+//@   loop 1   modifies written(buf)
+//@   loop 1   invariant stat.AvailableWidth >= 0 && dw(written(buf)) >= old(dw(written(buf)))
+//@   loop 1   invariant dw(written(buf)) - old(dw(written(buf))) <= old(stat.AvailableWidth) - stat.AvailableWidth
+//@   loop 1   invariant called("decor.Decorator.Decor") == old(called("decor.Decorator.Decor")) + rangeindex + 1
+//@   ensures  room: stat.AvailableWidth >= 0 && dw(written(buf)) >= old(dw(written(buf)))
+//@              && dw(written(buf)) - old(dw(written(buf))) <= old(stat.AvailableWidth) - stat.AvailableWidth
+//@   ensures  participation@C12: called("decor.Decorator.Decor") == old(called("decor.Decorator.Decor")) + len(group)
+
+//@ func (*bState).draw
+//@   props    C07
+//@   requires s != nil && s.filler != nil
+//@   requires s.buffers[0] != nil && s.buffers[1] != nil && s.buffers[2] != nil
+//@   requires s.buffers[0] != s.buffers[1] && s.buffers[0] != s.buffers[2] && s.buffers[1] != s.buffers[2]
+//@   requires drained: dw(written(s.buffers[0])) == 0 && dw(written(s.buffers[1])) == 0 && dw(written(s.buffers[2])) == 0
+//@   requires 0 <= stat.AvailableWidth && stat.AvailableWidth <= 1<<31
+//@   requires forall(i, 0, len(s.decorGroups[0]), s.decorGroups[0][i] != nil) && forall(i, 0, len(s.decorGroups[1]), s.decorGroups[1][i] != nil)
+//@   modifies written(s.buffers[0]), written(s.buffers[1]), written(s.buffers[2]), content(), pkgstate("decor"), sent(), recvd(), bFiller.tip, sFiller.count
+//@   loop 1   modifies written(s.buffers[0]), written(s.buffers[1])
+//@   loop 1   invariant stat.AvailableWidth >= 0
+//@   loop 1   invariant dw(written(s.buffers[0])) + dw(written(s.buffers[1])) + stat.AvailableWidth <= in(stat).AvailableWidth
+//@   loop 1   invariant dw(written(s.buffers[2])) == 0 && s.buffers == old(s.buffers) && s.decorGroups == old(s.decorGroups) && s.filler == old(s.filler)
+//@   loop 1   invariant rangeindex >= 0 ==> dw(written(s.buffers[1])) == 0 || rangeindex >= 1
+//@   loop 2   modifies content(spaces[0]), content(spaces[1])
+//@   loop 2   invariant (rangeindex >= 0 ==> dw(content(spaces[0])) == 0) && (rangeindex >= 1 ==> dw(content(spaces[1])) == 0)
+//@   loop 2   invariant dw(content(spaces[0])) <= 1 && dw(content(spaces[1])) <= 1 && len(spaces) == 2
+//@   ensures  rowfits: err == nil ==> dw(content(result0)) <= stat.AvailableWidth
